@@ -81,6 +81,7 @@ def _case(draw):
         "resp_own_piv": draw(st.booleans()),
         "tamper": draw(st.lists(st.tuples(st.sampled_from(["ct-bit", "opt-bit", "opt-trunc", "opt-piv", "opt-piv-pad", "opt-kid", "opt-idctx", "opt-insert-idctx", "opt-other", "opt-extend", "ctx-secret", "ctx-salt", "ctx-sid", "ctx-rid", "ctx-idctx", "ctx-alg"]), st.integers(0, 10**6)).map(list), min_size=2, max_size=8)),
         "second": draw(st.booleans()),
+        "reverse": draw(st.booleans()),
     }
 
 
@@ -293,6 +294,24 @@ def run_case(c):
             vio.append(V("C11/response-accepted-for-another-request" + ("/own-piv" if c["resp_own_piv"] else "/reused-piv"), "response to PIV %s verified against request PIV %s" % (req_id_c.partial_iv.hex(), req_id_c2.partial_iv.hex())))
         elif res[0] == "other":
             vio.append(V("C11/binding-check-raises/" + exc_key(res[1]), repr(res[1])))
+    # ---- O1 again with the roles swapped on the same pair of context objects: the former server sends a request under
+    # the very sequence number the former client used; a matching context that has seen none of the earlier traffic
+    # (a fresh copy of the former client) must be able to unprotect it
+    if c.get("reverse"):
+        try:
+            server.sender_sequence_number = int.from_bytes(req_id_c.partial_iv, "big")
+            inner_rev = build_inner(c["req_code"], c["req_opts"], req_payload, None, None)
+            outer_rev, _ = server.protect(inner_rev)
+            wire_rev, _ = E.over_the_wire(outer_rev, mid=0x4321)
+            fresh_client, _ = pair()
+            res = attempt_unprotect(fresh_client, wire_rev)
+            labels.add("role-reversal")
+            if res[0] != "message":
+                vio.append(V("C11/authentic-request-not-accepted/after-role-reversal", "the former server's request under the same sequence number: %r" % (res[1:],)))
+            elif bytes(res[1].payload) != req_payload:
+                vio.append(V("C11/request-roundtrip-differs", "after role reversal"))
+        except Exception as e:
+            vio.append(V("C11/protect-raises/" + exc_key(e), "role reversal: %r" % e))
     # ---- O4 tampering, on the request and on the response
     reached_decrypt = False
     for kind, n in c["tamper"]:
